@@ -58,3 +58,20 @@ Definition dec_of_Z (z : Z) : str :=
   | Zneg p => 45 :: dec_of_N (Npos p)
   | _ => dec_of_N (Z.to_N z)
   end.
+
+(* int(str) on ASCII decimal strings with an optional minus sign; anything else: ValueError.
+   (Python's int() also accepts surrounding white space, a plus sign, underscores and non-ASCII digits: those
+   inputs are outside the modelled domain.) *)
+Fixpoint dec_digits (s : str) (acc : N) : option N :=
+  match s with
+  | [] => Some acc
+  | c :: r => if is_digit c then dec_digits r (acc * 10 + (c - 48)) else None
+  end.
+Definition parse_dec (s : str) : option Z :=
+  match s with
+  | [] => None
+  | c :: r =>
+      if c =? 45 then match r with [] => None | _ => option_map (fun n => Z.opp (Z.of_N n)) (dec_digits r 0) end
+      else option_map Z.of_N (dec_digits s 0)
+  end.
+
